@@ -108,7 +108,9 @@ def spheres(ctx, members, warn=True):
     from holopy.scattering import Sphere
     ms = []
     for m in members:
-        if isinstance(m, dict) and 'n' in m and 'ref' not in m:
+        if isinstance(m, dict) and 'op' in m and 'args' in m:
+            ms.append(_inline_scatterer(ctx, m))
+        elif isinstance(m, dict) and 'n' in m and 'ref' not in m:
             ms.append(Sphere(n=val(ctx, m['n']), r=val(ctx, m['r']),
                              center=val(ctx, m.get('center'))))
         else:
